@@ -10,6 +10,7 @@ used verbatim, h / v lines are axis-parallel through the middle of the
 overlap, corner polylines are rectilinear and leave / enter perpendicular to
 the chosen edges; start / end / edge-type / corner-offset never appear."""
 import json
+import re
 import random
 
 import geom
@@ -140,7 +141,10 @@ def run(rep, tier, seed):
                 apart = a_["x2"] < b_["x1"] or b_["x2"] < a_["x1"] or a_["y2"] < b_["y1"] or b_["y2"] < a_["y1"]
                 zshape = all((m[2], m[3]) in (("l", "r"), ("r", "l"), ("t", "b"), ("b", "t")) for m in match)
                 # (with author-named edges there may be no outward way in: judged for automatically chosen edges)
-                if apart and cs["form"] == "auto":
+                # (an absolute corner-offset is taken literally and may exceed the gap between the
+                # boxes, which is the author's choice: judged for default and percentage offsets)
+                abs_offset = re.search(r'corner-offset="-?[0-9.]+"', c["xml"]) is not None
+                if apart and cs["form"] == "auto" and not abs_offset:
                     def outward(loc, p_edge, p_other):
                         dx, dy = p_other[0] - p_edge[0], p_other[1] - p_edge[1]
                         return {"r": dx >= -0.0015, "l": dx <= 0.0015, "b": dy >= -0.0015, "t": dy <= 0.0015}.get(loc, True)
